@@ -78,6 +78,10 @@ func c12Flat(c *Case) {
 		c12FlatPrefixed(c)
 		return
 	}
+	if c.Index%10 == 8 {
+		c12NoMoveTo(c)
+		return
+	}
 	d := c12Doc(c.GShared("doc", int64(c.Index/10)))
 	ctx := pickCtx(g, d)
 	if g.Chance(0.2) {
@@ -333,5 +337,58 @@ func c12FlatPrefixed(c *Case) {
 	c.Count("flat:prefixed")
 	if len(want) >= 2 {
 		c.Nontrivial(fmt.Sprintf("%s|ns%d|%d", src, c.Index/40, ctx.Ord))
+	}
+}
+
+// c12NoMoveTo: predicate-free child/attribute/self/descendant paths driven through a navigator whose
+// MoveTo always returns false: Current() must still designate each reported node.
+func c12NoMoveTo(c *Case) {
+	g := c.G()
+	d := c12Doc(c.GShared("doc", int64(c.Index/10)))
+	ctx := pickCtx(g, d)
+	names := namesIn(d)
+	p := xref.Path{}
+	n := 1 + g.Intn(3)
+	for i := 0; i < n; i++ {
+		ax := g.Pick("child", "child", "descendant", "self", "descendant-or-self")
+		if i == n-1 && g.Chance(0.4) {
+			ax = "attribute"
+		}
+		p.Steps = append(p.Steps, &xref.Step{Axis: ax, Test: g.NodeTest(ax, names)})
+	}
+	if c.expensive(p, d) {
+		return
+	}
+	src := xref.Render(p)
+	want, ok, _ := refNodeSet(p, xref.NewCtx(ctx))
+	if !ok {
+		return
+	}
+	ce := c.compile(src, func() map[string]interface{} { return docDetail(d, ctx) })
+	if ce == nil {
+		return
+	}
+	var res SelResult
+	rec := &xdoc.Rec{Limit: OpLimit}
+	func() {
+		defer func() {
+			if x := recover(); x != nil {
+				res.Panic, res.Budget = classify(x)
+			}
+			c.account(rec.Ops)
+		}()
+		drain(ce.Select(xdoc.NewNavNoMove(ctx, rec)), d, &res)
+	}()
+	c.Count("navigator:movetofails")
+	gs, _ := AsSet(res.Nodes)
+	if res.Aborted() || res.Foreign > 0 || !SameNodes(gs, want) {
+		dd := docDetail(d, ctx)
+		dd["expr"], dd["expected"], dd["observed_sequence"], dd["navigator"] = src, xdoc.Labels(want), xdoc.Labels(res.Nodes), "MoveTo always returns false"
+		dd["abort"] = fmt.Sprint(res.Panic.String(), res.Budget)
+		c.Violation("CURRENT-NOT-ON-REPORTED-NODE", dd)
+		return
+	}
+	if len(want) >= 2 {
+		c.Nontrivial(fmt.Sprintf("nm|%s|%d|%d", src, c.Index/10, ctx.Ord))
 	}
 }
